@@ -14,5 +14,6 @@ def main (args : List String) : IO UInt32 := do
   | ["store"] => Proto.loop stdin stdout DriverStore.step DriverStore.init; return 0
   | ["twin"] => Proto.loop stdin stdout DriverTwin.step DriverTwin.init; return 0
   | ["sketch"] => Proto.loop stdin stdout DriverSketch.step (); return 0
+  | ["seq"] => Proto.loop stdin stdout DriverSeq.step DriverSeq.init; return 0
   | ["own"] => Proto.loop stdin stdout DriverOwn.stepLine Own.Heap.empty; return 0
   | _ => IO.eprintln "usage: Main <module>"; return 2
